@@ -1,17 +1,50 @@
-//! One module per generated Lean file.
+//! One module per property (`cXX.rs`, owned by that property) plus `scalar.rs`
+//! (operator tables shared by C01 / C10 / C20). Each module lists its targets:
+//! `(target name, generated file stem, generator)`.
 use std::path::Path;
 
 pub mod scalar;
+pub mod c01;
+pub mod c02;
+pub mod c03;
+pub mod c04;
+pub mod c05;
+pub mod c06;
+pub mod c07;
+pub mod c08;
+pub mod c09;
+pub mod c10;
+pub mod c11;
+pub mod c12;
+pub mod c13;
+pub mod c14;
+pub mod c15;
+pub mod c16;
+pub mod c17;
+pub mod c18;
+pub mod c19;
+pub mod c20;
 
-/// every target name (used by setup to regenerate everything)
-pub const ALL: &[&str] = &["optables", "evalarms"];
+pub type Gen = fn(&Path) -> Result<String, String>;
+pub type Target = (&'static str, &'static str, Gen);
 
-type Gen = fn(&Path) -> Result<String, String>;
+const SHARED: &[Target] = &[
+    ("optables", "OpTables", scalar::optables as Gen),
+    ("evalarms", "EvalArms", scalar::evalarms as Gen),
+];
+
+fn tables() -> Vec<&'static [Target]> {
+    vec![SHARED, c01::TARGETS, c02::TARGETS, c03::TARGETS, c04::TARGETS, c05::TARGETS, c06::TARGETS, c07::TARGETS, c08::TARGETS, c09::TARGETS, c10::TARGETS, c11::TARGETS, c12::TARGETS, c13::TARGETS, c14::TARGETS, c15::TARGETS, c16::TARGETS, c17::TARGETS, c18::TARGETS, c19::TARGETS, c20::TARGETS]
+}
+
+pub fn all() -> Vec<&'static str> {
+    tables().into_iter().flatten().map(|t| t.0).collect()
+}
 
 pub fn lookup(t: &str) -> Option<(&'static str, Gen)> {
-    Some(match t {
-        "optables" => ("OpTables", scalar::optables as Gen),
-        "evalarms" => ("EvalArms", scalar::evalarms as Gen),
-        _ => return None,
-    })
+    tables()
+        .into_iter()
+        .flatten()
+        .find(|x| x.0 == t)
+        .map(|x| (x.1, x.2))
 }
